@@ -124,4 +124,29 @@ SRunCalls(art, refs, calls, i) ==
   IF i > Len(calls) THEN <<>>
   ELSE LET s0 == SStart(art, refs, calls[i])  s == SRun(s0) IN <<SObs(s0, s)>> \o SRunCalls(s.art, s.refs, calls, i + 1)
 
+(***************************************************************************)
+(* Part 3 (C07): what the library signs, it verifies, and it reports what  *)
+(* was signed.  Functional laws of the sign -> verify round trip.          *)
+(*                                                                         *)
+(* in = [api : "oci"|"blob", keySpec, format, signer : "local"|            *)
+(*       "pluginRaw"|"pluginEnvelope", fields : Seq(extra descriptor       *)
+(*       fields present), meta : "none"|"one"|"two", expiry : Nat (s),     *)
+(*       blob : size class, cmt : content media type atom]                 *)
+(***************************************************************************)
+KeySpecs == {"EC-256", "EC-384", "EC-521", "RSA-2048", "RSA-3072", "RSA-4096"}
+SigAlgOf(k) == CASE k = "EC-256" -> "ES256" [] k = "EC-384" -> "ES384" [] k = "EC-521" -> "ES512"
+                 [] k = "RSA-2048" -> "PS256" [] k = "RSA-3072" -> "PS384" [] k = "RSA-4096" -> "PS512"
+(* the signer derives the blob digest from the key spec, the verifier from the signature algorithm of the envelope *)
+HashOfKeySpec(k) == CASE k \in {"EC-256", "RSA-2048"} -> "sha256" [] k \in {"EC-384", "RSA-3072"} -> "sha384" [] OTHER -> "sha512"
+HashOfSigAlg(a)  == CASE a \in {"ES256", "PS256"} -> "sha256" [] a \in {"ES384", "PS384"} -> "sha384" [] OTHER -> "sha512"
+ASSUME HashAgreement == \A k \in KeySpecs : HashOfSigAlg(SigAlgOf(k)) = HashOfKeySpec(k)
+
+ExtraFields   == {"urls", "data", "platform", "artifactType", "annotations"}
+SignedFields  == {"mediaType", "digest", "size", "annotations"}
+(* the payload is the descriptor reduced to media type, digest, size and annotations (user metadata included) *)
+PayloadFields(in) == {"mediaType", "digest", "size"} \cup (IF "annotations" \in Range(in.fields) \/ in.meta # "none" THEN {"annotations"} ELSE {})
+RTExpected(in) == [signOK |-> TRUE, verifyOK |-> TRUE, payloadFields |-> PayloadFields(in), payloadOK |-> TRUE,
+                   digestAlg |-> IF in.api = "blob" THEN HashOfKeySpec(in.keySpec) ELSE "sha256",
+                   expiry |-> in.expiry, retDescOK |-> TRUE, metaOK |-> TRUE]
+
 =============================================================================
